@@ -126,6 +126,37 @@ def is_num(x):
     return isinstance(x, (int, float)) and not isinstance(x, bool)
 
 
+def retype_number(cell):
+    """the same number written the other way: ["i",n] <-> ["f",n,1] (None for anything else)"""
+    if cell[0] == "i":
+        return ["f", cell[1], 1]
+    if cell[0] == "f" and cell[2] == 1:
+        return ["i", cell[1]]
+    return None
+
+
+def match_twin(op):
+    """for a where by keywords in which some keyword is compared by match with an integral number as its probe:
+    the same where with those numbers written the other way; else None"""
+    if op.get("op") != "where" or op.get("pred") or not op.get("kws"):
+        return None
+    kws, changed = [], False
+    for col, arg in op["kws"]:
+        new = arg
+        if "d" in arg:
+            if arg["d"][0] == "match" and "v" in arg["d"][1]:
+                v = retype_number(arg["d"][1]["v"])
+                if v is not None:
+                    new = {"d": ["match", {"v": v}]}
+        elif op.get("pos") == "match" and "v" in arg:
+            v = retype_number(arg["v"])
+            if v is not None:
+                new = {"v": v}
+        changed = changed or new is not arg
+        kws.append([col, new])
+    return dict(op, kws=kws) if changed else None
+
+
 def n_match(c, a):
     if c is None or is_missing(c):
         return False
@@ -931,6 +962,33 @@ class Runner:
                       % (n, desc, cols, idx, rows[:12], rows2[:12], exp[:12]), self.where_sig(f, "rows"))
         elif list(r.indexes) != idx or set(r.columns) != set(cols):
             self.fail("op #%d %s: result has columns %s indexes %s, source %s %s" % (n, desc, list(r.columns), list(r.indexes), cols, idx), "where:attrs")
+        else:
+            self.requery_match(n, op, t, cols, rows, idx, desc)
+
+    def requery_match(self, n, op, t, cols, rows, idx, desc):
+        """a query is answered from its own arguments: after a `match` with an integral number the same table is asked the same
+        with the number written the other way (1 / 1.0: equal, but other patterns) and then the first question again; each answer
+        must be its own plain row-by-row evaluation.  (Nothing is added to the case: the extra wheres are read-only.)"""
+        tw = match_twin(op)
+        if tw is None:
+            return
+        self.tags.append("where:match:asked-again-with-the-number-written-the-other-way")
+        for what, q in (("the same number written the other way", tw), ("the first question again", op)):
+            try:
+                exp = naive_where(cols, rows, q)
+            except Undefined:
+                return
+            try:
+                _, rows2 = snap(where_call(t, q, cols))
+            except Exception as e:  # noqa
+                self.fail("op #%d %s answered correctly; then %s, where(%s), raised %r; plain evaluation gives %s"
+                          % (n, desc, what, json.dumps(q["kws"]), e, exp[:12]), "where-match-answer-depends-on-earlier-queries")
+                return
+            if canon_rows(cols, rows2) != canon_rows(cols, exp):
+                self.fail("op #%d %s on table with columns %s rows %s answered correctly; then %s, where(%s%s), returned %s; plain row-by-row evaluation gives %s"
+                          % (n, desc, cols, rows[:12], what, ("pos=%r, " % q["pos"]) if q.get("pos") else "", json.dumps(q["kws"]), rows2[:12], exp[:12]),
+                          "where-match-answer-depends-on-earlier-queries")
+                return
 
     def do_copy(self, n, op, t, tables, cols, rows, idx):
         self.tags.append("copy")
@@ -1069,7 +1127,7 @@ class Gen:
             if r.chance(0.5):
                 return ["f", x, 2] if x % 2 else ["f", x // 2, 1]
             return ["i", x // 2 if x % 2 == 0 else r.choice([0, 1, 2])]
-        return ["s", r.choice(["a", "b", "b", "ab", "ba", "c", "a1", "12", "1", ""])]
+        return ["s", r.choice(["a", "b", "b", "ab", "ba", "c", "a1", "12", "1", "", "1.0", "v1", "2.0", "10"])]
 
     def probe(self, col, wide=True):
         """a probe value: usually from the column's alphabet, sometimes outside the data range / another type"""
@@ -1190,9 +1248,11 @@ class Gen:
 
     def matcharg(self, col):
         r = self.r
+        # numbers come as int and as float: 1 and 1.0 are equal but format to different patterns ('1' / '1.0', the dot unescaped)
         if self.kind[col] in ("int", "num") and r.chance(0.6):
-            return ["i", r.choice([0, 1, 2, 3, 12])]
-        return r.choice([["s", "a"], ["s", "b"], ["s", "ab"], ["s", "1"], ["s", "2"], ["s", ""], ["i", 1], ["i", 12], ["s", "on"]])
+            return r.choice([["i", 0], ["i", 1], ["i", 2], ["i", 3], ["i", 12], ["f", 1, 1], ["f", 2, 1], ["f", 1, 2]])
+        return r.choice([["s", "a"], ["s", "b"], ["s", "ab"], ["s", "1"], ["s", "2"], ["s", ""], ["i", 1], ["i", 12], ["s", "on"],
+                         ["i", 1], ["f", 1, 1], ["i", 2], ["f", 2, 1], ["f", 12, 1], ["i", 10], ["f", 10, 1]])
 
     def where(self, t, cols, idx):
         r = self.r
@@ -1273,6 +1333,24 @@ class Gen:
                 x = 40 + x * 60 // 100          # no mutation of views
             if x < 14:
                 op, newcols = self.insert(ti, t["cols"], None)
+                if len(t["idx"]) >= 2 and r.chance(0.15):
+                    # new rows that agree on the leading index columns - with None / Missing there (None == Missing, None < None raises,
+                    # Missing > everything): the insert must not take them for an ordinary constant prefix
+                    pat = r.choice([[["n"]], [["m"]], [["m"], ["n"]], [["n"], ["m"]], [["i", 1]]])
+                    for lead in t["idx"][:-1]:
+                        if op["shape"] == "rows" and lead in t["cols"]:
+                            k = t["cols"].index(lead)
+                            for j, row in enumerate(op["rows"]):
+                                row[k] = list(pat[j % len(pat)])
+                        elif op["shape"] == "dicts":
+                            for j, d in enumerate(op["rows"]):
+                                for kv in d:
+                                    if kv[0] == lead:
+                                        kv[1] = list(pat[j % len(pat)])
+                        elif op["shape"] == "cols":
+                            for c, vs in op["cols"]:
+                                if c == lead:
+                                    vs[:] = [list(pat[j % len(pat)]) for j in range(len(vs))]
                 ops.append(op)
                 t["cols"] = newcols
                 self.taint(tabs, ti)
@@ -1294,6 +1372,14 @@ class Gen:
                     continue
                 ops.append(self.where(ti, t["cols"], t["idx"]))
                 tabs.append({"cols": list(t["cols"]), "idx": list(t["idx"]), "view": True, "data": t["data"], "dead": False})
+                tw = match_twin(ops[-1])
+                if tw is not None and r.chance(0.6):
+                    # the same question with the number written the other way (1 / 1.0), on this table or another live one:
+                    # every query is answered from its own probe, whatever was asked before in the process
+                    same = [i for i in live if tabs[i]["cols"] == t["cols"]]
+                    tj = r.choice(same) if r.chance(0.3) else ti
+                    ops.append(dict(tw, t=tj))
+                    tabs.append({"cols": list(tabs[tj]["cols"]), "idx": list(tabs[tj]["idx"]), "view": True, "data": tabs[tj]["data"], "dead": False})
             elif x < 94:
                 if not t["idx"] and r.chance(0.95):
                     continue
@@ -1440,25 +1526,32 @@ def plain_snippet(case):
             s = "None" if s is None else repr(s) if isinstance(s, str) else repr(s["one"]) if "one" in s else repr(list(s["many"]))
             out.append("print(list(%s.groupby(%d, %s)))" % (t, op["level"], s))
         elif k == "where":
-            args = []
+            def wargs(op):
+                args = []
+                if op.get("pred"):
+                    args.append("lambda r: %s  # r = row in the order of %s.columns" % (rp(op["pred"], _cols_at(case, op)), t))
+                elif op.get("pos"):
+                    args.append("None")
+                if op.get("pos"):
+                    args.append(repr(op["pos"]))
+                for c, a in op["kws"]:
+                    if "f" in a:
+                        args.append("%s=lambda c: %s" % (c, cp(a["f"])))
+                    elif "d" in a:
+                        args.append("%s={%r: %s}" % (c, a["d"][0], av(a["d"][1])))
+                    else:
+                        args.append("%s=%s" % (c, av(a)))
+                return ", ".join(args)
             if op.get("pred"):
-                args.append("lambda r: %s  # r = row in the order of %s.columns" % (rp(op["pred"], _cols_at(case, op)), t))
-            elif op.get("pos"):
-                args.append("None")
-            if op.get("pos"):
-                args.append(repr(op["pos"]))
-            for c, a in op["kws"]:
-                if "f" in a:
-                    args.append("%s=lambda c: %s" % (c, cp(a["f"])))
-                elif "d" in a:
-                    args.append("%s={%r: %s}" % (c, a["d"][0], av(a["d"][1])))
-                else:
-                    args.append("%s=%s" % (c, av(a)))
-            if op.get("pred"):
-                out.append("t%d = %s.where(%s\n)" % (nt, t, ", ".join(args)))
+                out.append("t%d = %s.where(%s\n)" % (nt, t, wargs(op)))
                 out.append("print(list(t%d))" % nt)
             else:
-                out.append("t%d = %s.where(%s); print(list(t%d))" % (nt, t, ", ".join(args), nt))
+                out.append("t%d = %s.where(%s); print(list(t%d))" % (nt, t, wargs(op), nt))
+            tw = match_twin(op)
+            if tw is not None:
+                # what Runner.requery_match asks: the number written the other way, then the first question again
+                out.append("print('the number written the other way:', list(%s.where(%s)))" % (t, wargs(tw)))
+                out.append("print('the first question again:', list(%s.where(%s)))" % (t, wargs(op)))
             nt += 1
     res = out[:4]
     for line in out[4:]:
@@ -1585,6 +1678,21 @@ class C17(Property):
             {"op": "insert", "t": 0, "shape": "dicts", "rows": [[["a", ["s", "y"]]], [["a", ["s", "x"]], ["c", ["s", "on"]]]]},
             W(0, c={"d": ["match", V("on")]})]})
         cs.append(mk("ab", [[1, "a1"], [12, "12"], [2, "x12y"], [1, "121"]], W(0, b={"d": ["match", V(12)]}), W(0, a={"d": ["match", V(1)]}), W(0, a={"d": ["match", V("1")]}), W(0, b={"d": ["match", V(1)]})))
+        # insert into a table indexed by two columns, the new rows agree on the first: a number (one sorted() of the last column),
+        # None (cannot be ordered: index dropped), Missing then None (== each other but out of order)
+        two = [[1, 1], [1, 3], [2, 0]]
+        def INS(*rows):
+            return {"op": "insert", "t": 0, "shape": "rows", "rows": [[V(x)["v"] for x in r] for r in rows]}
+        cs.append(mk("ab", two, IX(0, "a", "b"), INS([2, 1], [2, 2]), W(0, a=V(2), b=V(1)), INS([2.0, 5], [2, 4]), W(0, a=V(2), b=V(4))))
+        cs.append(mk("ab", two, IX(0, "a", "b"), INS([None, 1], [None, 2]), W(0, a=V(2)), W(0, b=V(1))))
+        cs.append(mk("ab", two, IX(0, "a", "b"), INS(["M", 1], [None, 2]), W(0, a=V(2)), W(0, b=V(1))))
+        cs.append(mk("ab", two, IX(0, "a", "b"), INS(["M", 1], ["M", 0]), W(0, a=V(2)), W(0, b=V(1)), INS(["M", 3], ["M", 4]), W(0, b=V(4))))
+        # equal numbers written differently are different patterns; every query is answered from its own probe (also across tables)
+        strs = [["1"], ["v1"], ["1.0"], ["11"], ["x1y0"], ["2"], ["2.0"], ["run 2"]]
+        cs.append(mk("a", strs, W(0, a={"d": ["match", V(1)]}), W(0, a={"d": ["match", V(1.0)]}), W(0, a={"d": ["match", V(2.0)]}), W(0, a={"d": ["match", V(2)]}), W(0, a={"d": ["match", V(1)]})))
+        cs.append(mk("a", strs, W(0, a={"d": ["match", V(1.0)]}), W(0, a={"d": ["match", V(1)]}), W(0, pos="match", a=V(2)), W(0, pos="match", a=V(2.0))))
+        cs.append(mk("ab", [[0, "1"], [1, "1.0"], [0, "10"], [1, "1x0"]], IX(0, "a"), W(0, a={"d": [">=", V(0)]}), W(1, b={"d": ["match", V(10)]}), W(1, b={"d": ["match", V(10.0)]}),
+                     {"op": "copy", "t": 0}, W(4, b={"d": ["match", V(1.0)]}), W(0, b={"d": ["match", V(1)]})))
         cs.append({"init": {"kind": "columns", "columns": ["a", "b"]}, "ops": [
             {"op": "insert", "t": 0, "shape": "dicts", "rows": [[], []]}, {"op": "insert", "t": 0, "shape": "dicts", "rows": [[["a", ["i", 1]]], []]}]})
         # a where on the (broken) view P8 returns: the repeated row numbers make View._try_slice take it for a slice
